@@ -111,9 +111,10 @@ def _param_witnesses() -> list[tuple[str, Fraction, Fraction, Fraction]]:
     for lo, hi in itertools.product(vals, repeat=2):
         r = hi - lo
         if r > 0:
-            precs = {"0": Fraction(0), "in(0,r)": r / 4, "=r": r, ">r": r + 1}
+            eps = Fraction(1, 2 ** 30)
+            precs = {"0": Fraction(0), "in(0,r)": r / 4, "in(0,r)~r": r - eps, "=r": r, ">r~r": r + eps, ">r": r + 1}
         else:
-            precs = {"0": Fraction(0), ">0": Fraction(1, 2)}
+            precs = {"0": Fraction(0), ">0": Fraction(1, 2), ">0~0": Fraction(1, 2 ** 30)}
         rel = "<" if lo < hi else "=" if lo == hi else ">"
         for tag, p in precs.items():
             out.append((f"lo{rel}hi[{lo},{hi}] prec{tag}", lo, hi, p))
@@ -176,8 +177,12 @@ def r1_r2_table(ctx: Context, order: list[str]) -> None:
         one(f"len(bounds)={nb},len(lo)={nlo},len(hi)={nhi},len(prec)={npr}", subs, [Fraction(1)] * npr)
     # per-parameter order classes, pairs of parameters
     wit = _param_witnesses()
-    for (la, lo0, hi0, p0), (lb, lo1, hi1, p1) in itertools.product(wit, repeat=2):
+    core = [w for w in wit if "~" not in w[0]]
+    for (la, lo0, hi0, p0), (lb, lo1, hi1, p1) in itertools.product(core, repeat=2):
         one(f"{la} | {lb}", [[lo0, lo1], [hi0, hi1]], [p0, p1])
+    # near-boundary representatives (same order classes, other witnesses) after a well-formed first parameter
+    for la, lo0, hi0, p0 in [w for w in wit if "~" in w[0]]:
+        one(f"ok | {la}", [[Fraction(0), lo0], [Fraction(4), hi0]], [Fraction(1), p0])
     # single parameter and three parameters with the error in the last slot
     for la, lo0, hi0, p0 in wit:
         one(f"{la}", [[lo0], [hi0]], [p0])
@@ -236,66 +241,116 @@ def r3_grid(ctx: Context) -> None:
     ret = [n for n in walk_scope(dims.node) if isinstance(n, ast.Return)]
     ok = len(ret) == 1 and src(ret[0].value) in ("len(self._parameters_precision)", "len(self._parameters_bounds[0])", "len(self._param_grid)")
     ctx.check(ok, "R3.dims", "SearchSpace.dims", "dims is the number of parameters", f"dims returns `{src(ret[0].value) if ret else '?'}`", dims, dims.node)
-    loops = [n for n in walk_scope(init.node) if isinstance(n, ast.For) and any(isinstance(c, ast.Call) and (dotted(c.func) or "").endswith("arange") for c in ast.walk(n))]
-    ctx.floor("R3", "grid-building loop with np.arange", len(loops), 1)
-    loop = loops[0]
-    it_ok = isinstance(loop.target, ast.Name) and src(loop.iter) in ("range(self.dims)", "range(len(parameters_precision))", "range(len(self._parameters_precision))")
-    ctx.check(it_ok, "R3.columns", "SearchSpace.__init__:grid-loop", "the grid loop visits every parameter index once, in order",
-              f"grid loop is `for {src(loop.target)} in {src(loop.iter)}`", init, loop)
-    i = loop.target.id if isinstance(loop.target, ast.Name) else "i"
-    ar = [c for c in ast.walk(loop) if isinstance(c, ast.Call) and (dotted(c.func) or "").endswith("arange")]
     n = normaliser(prog, init, inline_locals=False)
-    c = ar[0]
+    aranges = [c for c in ast.walk(init.node) if isinstance(c, ast.Call) and (dotted(c.func) or "").endswith("arange")]
+    ctx.floor("R3", "np.arange call building the grid in SearchSpace.__init__", len(aranges), 1)
+    c = aranges[0]
     start, stop, step = kwarg(c, "start", 0), kwarg(c, "stop", 1), kwarg(c, "step", 2)
     if start is None or stop is None or step is None:
         ctx.fail("R3.arange", "SearchSpace.__init__:arange-args", f"np.arange is not called with start, stop and step: `{src(c)}`", init, c)
         return
-    b = lambda s: str(n.rat(parse_expr(s.replace("$i", i))))  # noqa: E731
-    alias = {"parameters_bounds": ["parameters_bounds", "self._parameters_bounds"], "parameters_precision": ["parameters_precision", "self._parameters_precision"]}
-    ctx.check(str(n.rat(start)) in [b(f"{x}[0][$i]") for x in alias["parameters_bounds"]], "R3.arange", "SearchSpace.__init__:arange-start",
-              "column i starts at the lower bound of parameter i", f"grid start is `{src(start)}`", init, c)
-    ctx.check(str(n.rat(step)) in [b(f"{x}[$i]") for x in alias["parameters_precision"]], "R3.arange", "SearchSpace.__init__:arange-step",
-              "column i advances by the precision of parameter i", f"grid step is `{src(step)}`", init, c)
+    # which iteration produces the columns: `for i in range(dims)` with indexed access, or a comprehension over zip(lower, upper, precision)
+    holder = getattr(c, "_parent", None)
+    loop = comp = None
+    cur = c
+    while cur is not None and cur is not init.node:
+        if isinstance(cur, ast.For) and loop is None:
+            loop = cur
+        if isinstance(cur, (ast.ListComp, ast.GeneratorExp)) and comp is None:
+            comp = cur
+        cur = getattr(cur, "_parent", None)
+    B = ["parameters_bounds", "self._parameters_bounds"]
+    P = ["parameters_precision", "self._parameters_precision"]
+    lo_forms: set[str] = set()
+    hi_forms: set[str] = set()
+    st_forms: set[str] = set()
+    col = None
+    if comp is not None and len(comp.generators) == 1:
+        gen = comp.generators[0]
+        it = gen.iter
+        ok_it = isinstance(it, ast.Call) and dotted(it.func) == "zip" and len(it.args) == 3 and isinstance(gen.target, ast.Tuple) and len(gen.target.elts) == 3 and not gen.ifs \
+            and src(it.args[0]) in [f"{b}[0]" for b in B] and src(it.args[1]) in [f"{b}[1]" for b in B] and src(it.args[2]) in P
+        ctx.check(ok_it, "R3.columns", "SearchSpace.__init__:grid-loop", "one column per parameter: zip(lower bounds, upper bounds, precisions), in order", f"grid comprehension iterates `{src(it)[:90]}`", init, comp)
+        if ok_it:
+            l_, u_, p_ = (src(x) for x in gen.target.elts)
+            lo_forms, hi_forms, st_forms = {l_}, {u_}, {p_}
+        par = getattr(comp, "_parent", None)
+        ok_store = isinstance(par, (ast.Assign, ast.AnnAssign)) and src(par.targets[0] if isinstance(par, ast.Assign) else par.target) == "self._param_grid"
+        ctx.check(ok_store, "R3.columns", "SearchSpace.__init__:append", "the columns, in parameter order, are the grid", "the comprehension result is not stored as the grid", init, comp)
+    elif loop is not None and isinstance(loop.target, ast.Name):
+        i = loop.target.id
+        it_ok = src(loop.iter) in ("range(self.dims)", "range(len(parameters_precision))", "range(len(self._parameters_precision))")
+        ctx.check(it_ok, "R3.columns", "SearchSpace.__init__:grid-loop", "the grid loop visits every parameter index once, in order", f"grid loop is `for {i} in {src(loop.iter)}`", init, loop)
+        lo_forms = {str(n.rat(parse_expr(f"{b}[0][{i}]"))) for b in B}
+        hi_forms = {str(n.rat(parse_expr(f"{b}[1][{i}]"))) for b in B}
+        st_forms = {str(n.rat(parse_expr(f"{p_}[{i}]"))) for p_ in P}
+        col_names = [t.id for s_ in loop.body if isinstance(s_, (ast.Assign, ast.AnnAssign)) for t in ([s_.target] if isinstance(s_, ast.AnnAssign) else s_.targets) if isinstance(t, ast.Name) and any(x is c for x in ast.walk(s_))]
+        col = col_names[0] if col_names else None
+        appended = [x for x in ast.walk(loop) if isinstance(x, ast.Call) and isinstance(x.func, ast.Attribute) and x.func.attr == "append" and is_self_attr(x.func.value, init.self_name, "_param_grid")]
+        ok = len(appended) == 1 and (src(appended[0].args[0]) == col or any(y is c for y in ast.walk(appended[0])))
+        ctx.check(ok, "R3.columns", "SearchSpace.__init__:append", "each column is appended to the grid in parameter order", "the grid column is not appended to _param_grid", init, loop)
+        grid_init = [v for f, s_, v in prog.attr_stores(cls, inherited=False).get("_param_grid", []) if f is init]
+        ctx.check(len(grid_init) == 1 and isinstance(grid_init[0], ast.List) and not grid_init[0].elts, "R3.columns", "SearchSpace.__init__:grid-init", "the grid starts empty", "the grid does not start as an empty list", init, init.node)
+    else:
+        raise AnalysisError(f"{init.loc(c)}: the grid is not built by a loop over the parameter indices nor by a comprehension over zip(bounds, precisions); cannot decide R3")
+    ctx.check(str(n.rat(start)) in lo_forms, "R3.arange", "SearchSpace.__init__:arange-start", "column i starts at the lower bound of parameter i", f"grid start is `{src(start)}`", init, c)
+    ctx.check(str(n.rat(step)) in st_forms, "R3.arange", "SearchSpace.__init__:arange-step", "column i advances by the precision of parameter i", f"grid step is `{src(step)}`", init, c)
     slack = None
-    for x in alias["parameters_bounds"]:
-        diff = n.rat(stop) - n.rat(parse_expr(f"{x}[1][{i}]"))
-        if not any(a.startswith(("parameters_bounds", "self._parameters_bounds")) for a in diff.atoms()):
+    for hf in hi_forms:
+        diff = n.rat(stop) - n.rat(parse_expr(hf)) if not hf.startswith("(") else None
+        if diff is not None and not any(a_ in hi_forms for a_ in diff.atoms()):
             slack = diff
             break
-    ctx.check(slack is not None, "R3.arange", "SearchSpace.__init__:arange-stop", "column i stops just beyond the upper bound of parameter i",
-              f"grid stop is `{src(stop)}`", init, c)
+    ctx.check(slack is not None, "R3.arange", "SearchSpace.__init__:arange-stop", "column i stops just beyond the upper bound of parameter i", f"grid stop is `{src(stop)}`", init, c)
     if slack is not None:
         cst = slack.const()
         ctx.check(cst is None or cst > 0, "R3.slack-positive", "SearchSpace.__init__:arange-stop-slack-sign",
                   "the stop value lies strictly beyond the upper bound (so a bound that is a whole number of steps away is included)",
                   f"end-point slack is {slack}: the upper bound itself is excluded from the grid", init, c)
-        # R4: an absolute slack is only sound for steps larger than it
-        depends_on_step = any("parameters_precision" in a for a in slack.atoms())
-        ctx.check(depends_on_step or (cst is not None and cst <= 0) or _step_validated_ge(ctx, cst), "R4.slack-scale", "SearchSpace.__init__:arange-stop-slack:absolute-constant",
-                  "the end-point slack scales with the step (or the step is validated to be larger than it)",
-                  f"the end-point slack is the absolute constant {float(cst) if cst is not None else slack}: for a precision below it the grid runs past the upper bound "
-                  "(e.g. bounds [0, 1e-3], precision 1e-8 -> 9 grid points above the bound)", init, c)
+        step_atoms = [a_ for a_ in slack.atoms() if a_ in st_forms]
+        if step_atoms:
+            from ..poly import Rat, p_atom
+            ratio = (slack / Rat(p_atom(step_atoms[0]))).const()
+            ctx.check(ratio is not None and 0 < ratio <= Fraction(1, 10 ** 6), "R4.slack-scale", "SearchSpace.__init__:arange-stop-slack:fraction-of-step",
+                      "the end-point slack is a negligible fraction of the step",
+                      f"the end-point slack is {ratio if ratio is not None else slack} of a step: whenever the range is not a whole number of steps and the remainder exceeds 1 - {ratio}, "
+                      "the grid gains a point above the declared upper bound (e.g. bounds [0, 1], step 0.15 -> 1.05), so samplers propose and the model is run outside the declared space", init, c)
+        else:
+            ctx.check((cst is not None and cst <= 0) or _step_validated_ge(ctx, cst), "R4.slack-scale", "SearchSpace.__init__:arange-stop-slack:absolute-constant",
+                      "the end-point slack scales with the step (or the step is validated to be larger than it)",
+                      f"the end-point slack is the absolute constant {float(cst) if cst is not None else slack}: for a precision below it the grid runs past the upper bound "
+                      "(e.g. bounds [0, 1e-3], precision 1e-8 -> 9 grid points above the bound)", init, c)
+            ctx.check(cst is None or cst <= Fraction(1, 10 ** 6), "R4.slack-scale", "SearchSpace.__init__:arange-stop-slack:size", "the absolute slack is at most 1e-6", f"the end-point slack is {float(cst) if cst is not None else slack}", init, c)
     dt = kwarg(c, "dtype")
     ctx.check(dt is None or src(dt) in ("np.float64", "float", "'float64'", "numpy.float64"), "R3.arange", "SearchSpace.__init__:arange-dtype",
               "grid columns are float64", f"grid dtype is {src(dt)}", init, c)
-    # column appended (order preserved) and size is the running product of column lengths
-    col_names = [t.id for s in loop.body if isinstance(s, (ast.Assign, ast.AnnAssign)) for t in ([s.target] if isinstance(s, ast.AnnAssign) else s.targets) if isinstance(t, ast.Name) and any(x is c for x in ast.walk(s))]
-    col = col_names[0] if col_names else None
-    appended = [x for x in ast.walk(loop) if isinstance(x, ast.Call) and isinstance(x.func, ast.Attribute) and x.func.attr == "append" and is_self_attr(x.func.value, init.self_name, "_param_grid")]
-    ok = len(appended) == 1 and (src(appended[0].args[0]) == col or any(y is c for y in ast.walk(appended[0])))
-    ctx.check(ok, "R3.columns", "SearchSpace.__init__:append", "each column is appended to the grid in parameter order",
-              "the grid column is not appended to _param_grid", init, loop)
-    grid_init = [v for f, s, v in prog.attr_stores(cls, inherited=False).get("_param_grid", []) if f is init]
-    ctx.check(len(grid_init) == 1 and isinstance(grid_init[0], ast.List) and not grid_init[0].elts, "R3.columns", "SearchSpace.__init__:grid-init",
-              "the grid starts empty", "the grid does not start as an empty list", init, init.node)
-    size_stores = [(s, v) for f, s, v in prog.attr_stores(cls, inherited=False).get("_space_size", []) if f is init]
-    init_ok = any(isinstance(s, (ast.Assign, ast.AnnAssign)) and isinstance(v, ast.Constant) and v.value == 1 for s, v in size_stores)
-    upd = [(s, v) for s, v in size_stores if isinstance(s, ast.AugAssign) or (isinstance(s, ast.Assign) and not isinstance(v, ast.Constant))]
-    upd_ok = len(upd) == 1 and any(x is upd[0][0] for x in ast.walk(loop)) and (
-        (isinstance(upd[0][0], ast.AugAssign) and isinstance(upd[0][0].op, ast.Mult) and src(upd[0][1]) in (f"len({col})", f"{col}.shape[0]", f"{col}.size"))
-        or (isinstance(upd[0][0], ast.Assign) and str(n.rat(upd[0][1])) == str(n.rat(parse_expr(f"self._space_size * len({col})")))))
-    ctx.check(init_ok and upd_ok, "R3.size", "SearchSpace.__init__:space-size", "space_size is the running product of the column lengths starting from 1",
-              "space_size is not the product of the grid column lengths", init, upd[0][0] if upd else init.node)
+    # space size: exact (arbitrary precision) product of the column lengths
+    size_stores = [(s_, v) for f, s_, v in prog.attr_stores(cls, inherited=False).get("_space_size", []) if f is init]
+    for s_, v in size_stores:
+        for x in ast.walk(v) if v is not None else []:
+            if isinstance(x, ast.Call) and prog.qualify(init.module, dotted(x.func) or "").startswith("numpy.") and (dotted(x.func) or "").split(".")[-1] in ("prod", "product", "cumprod", "multiply"):
+                ctx.fail("R3.size", "SearchSpace.__init__:space-size:fixed-width-product", f"`{src(s_)[:80]}`: numpy multiplies the column lengths in 64-bit integers, which wrap silently: for large spaces "
+                         "(e.g. 4 parameters of 100001 points) the reported size is not the product of the grid lengths", init, s_)
+    init_one = any(isinstance(s_, (ast.Assign, ast.AnnAssign)) and isinstance(v, ast.Constant) and v.value == 1 for s_, v in size_stores)
+    upd = [(s_, v) for s_, v in size_stores if isinstance(s_, ast.AugAssign) or (isinstance(s_, ast.Assign) and not isinstance(v, ast.Constant))]
+    ok_size = False
+    if len(upd) == 1:
+        s_, v = upd[0]
+        lp = getattr(s_, "_parent", None)
+        if isinstance(s_, ast.AugAssign) and isinstance(s_.op, ast.Mult) and isinstance(lp, ast.For):
+            if lp is loop and col is not None:
+                ok_size = init_one and src(v) in (f"len({col})", f"{col}.shape[0]", f"{col}.size")
+            elif isinstance(lp.target, ast.Name) and src(lp.iter) in ("self._param_grid", "self.param_grid"):
+                ok_size = init_one and src(v) in (f"len({lp.target.id})", f"{lp.target.id}.shape[0]", f"{lp.target.id}.size")
+        elif isinstance(s_, ast.Assign) and isinstance(v, ast.Call) and (dotted(v.func) or "") in ("math.prod", "prod") and v.args and isinstance(v.args[0], (ast.GeneratorExp, ast.ListComp)):
+            g0 = v.args[0]
+            ok_size = len(g0.generators) == 1 and src(g0.generators[0].iter) in ("self._param_grid", "self.param_grid") and src(g0.elt) == f"len({src(g0.generators[0].target)})"
+        elif isinstance(s_, ast.Assign) and col is not None and lp is loop:
+            ok_size = init_one and str(n.rat(v)) == str(n.rat(parse_expr(f"self._space_size * len({col})")))
+    already = any(f_.key.endswith("fixed-width-product") for f_ in ctx.findings)
+    if not already:
+        ctx.check(ok_size, "R3.size", "SearchSpace.__init__:space-size", "space_size is the exact product of the column lengths (Python integers, starting from 1)",
+                  "space_size is not the running product of the grid column lengths", init, upd[0][0] if upd else init.node)
     for prop_name, attr in (("param_grid", "_param_grid"), ("space_size", "_space_size"), ("parameters_bounds", "_parameters_bounds"), ("parameters_precision", "_parameters_precision")):
         g = cls.getters.get(prop_name)
         r = [x for x in walk_scope(g.node) if isinstance(x, ast.Return)] if g else []
